@@ -20,8 +20,10 @@ import sdc11073.definitions_sdc  # noqa: F401  (protocol registry)
 from sdc11073.location import SdcLocation
 from sdc11073.mdib import statecontainers
 from sdc11073.provider import scopesfactory
+from sdc11073.wsdiscovery import wsdimpl
 from sdc11073.wsdiscovery.service import Service
 from sdc11073.xml_types import pm_types
+from sdc11073.definitions_sdc import SdcV1Definitions
 from sdc11073.xml_types.wsd_types import ScopesType
 
 import core
@@ -29,11 +31,11 @@ import core
 READY = True
 MANIFEST = dict(
     technique='Lean 4 theorems over a byte-level model of the scope codec (percent-encoding, UTF-8 decoding with replacement, urlsplit, parse_qsl transcribed and proved to round-trip); differential correspondence of every model function against the real code',
-    text='Theorems (Properties/C16.lean): scope_roundtrip (from_scope_string(scope_string(loc)) = loc for every non-empty root and every present/absent pattern of arbitrary UTF-8 values, empty string included), published_roundtrip / published_inside (the scope mk_scopes publishes is inside exactly the locations with the default root that agree on all their specified elements; corollaries: inside itself, inside every enclosing location, outside every location differing in a specified element), filter_total (for every scope string and service list filter_services_inside returns, no exception class escapes). The model is compared with the implementation on generated locations (all 64 presence patterns, reserved/non-ASCII/long values) and on foreign scope strings (any scheme, netloc, 0-6 segments, malformed queries).',
+    text='Theorems (Properties/C16.lean): scope_roundtrip (from_scope_string(scope_string(loc)) = loc for every non-empty root and every present/absent pattern of arbitrary UTF-8 values, empty string included), published_roundtrip / published_inside (the scope mk_scopes publishes is inside exactly the locations with the default root that agree on all their specified elements; corollaries: inside itself, inside every enclosing location, outside every location differing in a specified element), filter_total / filter_services_total (for every scope string and service list filter_services_inside returns exactly the services with ANY scope inside, no exception class escapes), search_in_location_exact / search_finds_published / search_excludes_elsewhere (WSDiscovery.search_sdc_device_services_in_location = SDC-typed discovered services filtered by location containment, so a device is found by exactly the searches for enclosing locations). The model is compared with the implementation on generated locations (all 64 presence patterns, reserved/non-ASCII/long values) and on foreign scope strings (any scheme, netloc, 0-6 segments, malformed queries).',
     note='Trusted: Lean kernel; harness and generators; the ipaddress/NFKC checks inside urlsplit are a parameter of the model (all theorems hold for every outcome), CPython str.encode/UTF-8 decoder is modelled and under correspondence. Domain: strings are sequences of Unicode scalar values (lone surrogates cannot be encoded, quote raises); root must be non-empty (root is deprecated; an empty root cannot be expressed in the URL path); the published scope always carries the fixed root sdc.ctxt.loc.detail.',
     ref='5 C16')
 DRIVERS = ['drv_c16']
-RULE = ('one case = one operation (scope / published / parse / match / filter / split / qsl / utf8 / quote) with its arguments; '
+RULE = ('one case = one operation (scope / published / parse / match / filter / search / split / qsl / utf8 / quote) with its arguments; '
         'distinct by canonical argument tuple; non-trivial = at least one element or scope carries a reserved, '
         'percent, plus, space or non-ASCII character, or the scope is foreign / malformed')
 TRUSTED = ['ipaddress.ip_address and unicodedata.normalize inside urlsplit (parameter chk of the model; the harness passes whether the real urlsplit accepted the URL)',
@@ -130,6 +132,16 @@ def published_scope(t) -> str:
     return loc_scopes[0]
 
 
+def published_scope_list(t, extra_idents=(), extra_first=True):
+    """All scopes mk_scopes publishes for a provider at location t whose LocationContextState carries further
+    instance identifiers (root, extension) in front of / behind the GLUE fallback identifier."""
+    state = statecontainers.LocationContextStateContainer.from_sdc_location(
+        mock.MagicMock(Handle='d', DescriptorVersion=0), 'h', mk_loc(t))
+    extra = [pm_types.InstanceIdentifier(root=r, extension_string=e) for r, e in extra_idents]
+    state.Identification = (extra + list(state.Identification)) if extra_first else (list(state.Identification) + extra)
+    return list(scopesfactory.mk_scopes(_mock_mdib(state)).text)
+
+
 def impl_pub(t) -> str:
     try:
         return 'ok ' + hx(published_scope(t))
@@ -168,6 +180,42 @@ def impl_filter(t, svcs) -> str:
         return 'ok ' + ' '.join(s.epr for s in res)
     except Exception as ex:  # noqa: BLE001
         return _exc(ex)
+
+
+DEVICE_TYPES = [(q.namespace, q.localname) for q in SdcV1Definitions.MedicalDeviceTypesFilter]
+OTHER_TYPE = ('http://example.org/verif', 'Other')
+
+
+def enc_types(types) -> str:
+    return '-' if types is None else 't' + ','.join(hx(ns) + ':' + hx(n) for ns, n in types)
+
+
+def impl_search(t, remote) -> str:
+    """WSDiscovery.search_sdc_device_services_in_location on a node without network whose table of discovered services
+    holds `remote` = [(types, scopes)]; the probe that would be sent is captured and dropped."""
+    from lxml import etree
+    wsd = wsdimpl.WSDiscovery('127.0.0.1')
+    wsd._networking_thread = mock.MagicMock()
+    wsd._server_started = True
+    for i, (types, scopes) in enumerate(remote):
+        st = None
+        if scopes is not None:
+            st = ScopesType()
+            st.text.extend(scopes)
+        wsd._remote_services[str(i)] = Service(None if types is None else [etree.QName(ns, n) for ns, n in types], st, ['http://x'], str(i), '1')
+    try:
+        with mock.patch.object(wsdimpl.time, 'sleep', lambda *_: None):
+            res = wsd.search_sdc_device_services_in_location(mk_loc(t), timeout=0)
+        return 'ok ' + ' '.join(s.epr for s in res)
+    except Exception as ex:  # noqa: BLE001
+        return _exc(ex)
+
+
+def _search_line(t, remote) -> str:
+    toks = []
+    for types, scopes in remote:
+        toks.append(enc_types(types) + '|' + ('N' if scopes is None else 'S' + ','.join(split_flag(x) + hx(x) for x in scopes)))
+    return ('search ' + show_loc(t) + ' ' + enc_types(DEVICE_TYPES) + ' ' + ' '.join(toks)).rstrip()
 
 
 # ---------------------------------------------------------------------------------------------- generators
@@ -271,6 +319,58 @@ def rand_foreign_scope(rng):
     if rng.random() < 0.08:
         url = rng.choice([' ', '\t', '\n ', '\x00', '\x1f ']) + url
     return url
+
+
+MALFORMED_LOC_SCOPES = ['sdc.ctxt.loc:/root', 'sdc.ctxt.loc://[bad/x', 'sdc.ctxt.loc:/a/b/c?fac=x', 'sdc.ctxt.loc:', 'sdc.ctxt.loc:x',
+                        'SDC.CTXT.LOC:/only', 'sdc.ctxt.loc:/%/%?%']
+NON_LOC_SCOPES = [scopesfactory.KEY_PURPOSE_SERVICE_PROVIDER, 'sdc.cdc.type:/a/b/c', 'sdc.ctxt.opr:/r/e', 'http://example.org/x', 'urn:uuid:1']
+
+
+def scope_for(rng, t, inside: bool):
+    """a location scope (scope_string or the published one) of a location that is / is not inside `t`, known by
+    construction; None when that is not possible for this t"""
+    if t[0] == '':
+        return None
+    inner = list(t)
+    for j in range(1, 7):   # more specific than t
+        if inner[j] is None and rng.random() < 0.5:
+            inner[j] = rand_string(rng)
+    use_pub = t[0] == DEFAULT_ROOT and any(inner[1:]) and rng.random() < 0.6
+    if not inside:
+        spec = [j for j in range(1, 7) if t[j] is not None]
+        if spec and rng.random() < 0.8:
+            j = rng.choice(spec)
+            inner[j] = (t[j] + 'x') if rng.random() < 0.7 else None     # differs in / lacks a specified element
+            use_pub = use_pub and any(inner[1:])
+        elif use_pub:
+            return None   # the published root is fixed; cannot differ in the root
+        else:
+            inner[0] = t[0] + 'x'
+    try:
+        return published_scope(inner) if use_pub else mk_loc(inner).scope_string
+    except Exception:  # noqa: BLE001
+        return None
+
+
+def multi_scope_service(rng, t):
+    """scopes of one service with 2-4 entries, several of them location scopes; -> (scopes, inside?) by construction"""
+    want_inside = rng.random() < 0.6
+    good = scope_for(rng, t, True) if want_inside else None
+    others = []
+    for _ in range(rng.choice([1, 2, 2, 3])):
+        k = rng.random()
+        if k < 0.4:
+            o = scope_for(rng, t, False)
+        elif k < 0.75:
+            o = rng.choice(MALFORMED_LOC_SCOPES)
+        else:
+            o = rng.choice(NON_LOC_SCOPES)
+        if o is not None:
+            others.append(o)
+    if good is None:
+        return others, False
+    pos = rng.choice([0, len(others), rng.randrange(len(others) + 1)])   # first / last / somewhere
+    return others[:pos] + [good] + others[pos:], True
 
 
 def nontrivial_str(*strings) -> bool:
@@ -380,6 +480,36 @@ def oracle_filter(ctx, t, svcs):
     return res
 
 
+def oracle_filter_expected(ctx, t, svcs, expected):
+    """Sentences 2+3 on services with several scopes: a service is inside iff ANY of its location scopes is inside;
+    `expected` = indices known by construction."""
+    case = {'op': 'filter', 'self': list(t), 'services': svcs, 'expected': list(expected)}
+    try:
+        res = mk_loc(t).filter_services_inside(mk_services(svcs))
+    except Exception as ex:  # noqa: BLE001
+        ctx.fail('filter-raises:' + type(ex).__name__, f'filter_services_inside raised {ex!r}', case)
+        return
+    got = [int(s.epr) for s in res]
+    if got != list(expected):
+        missing = [i for i in expected if i not in got]
+        kind = 'inside-service-dropped' if missing else 'outside-service-kept'
+        ctx.fail('filter-multi-scope:' + kind,
+                 f'services {got} selected, by construction {list(expected)} are inside (a service is inside iff any of its scopes is)', case)
+
+
+def oracle_search(ctx, t, remote, expected, impl):
+    """search_sdc_device_services_in_location returns exactly the SDC devices whose published location is enclosed"""
+    case = {'op': 'search', 'self': list(t), 'remote': remote, 'expected': list(expected)}
+    if impl.startswith('err'):
+        ctx.fail('search-in-location-raises:' + impl[4:], f'search_sdc_device_services_in_location raised {impl[4:]}', case)
+        return
+    got = sorted(int(x) for x in impl.split()[1:])
+    if got != sorted(expected):
+        missing = [i for i in expected if i not in got]
+        ctx.fail('search-in-location:' + ('device-not-found' if missing else 'device-outside-found'),
+                 f'search for {t!r} returned services {got}; devices located inside it (by construction): {sorted(expected)}', case)
+
+
 # ---------------------------------------------------------------------------------------------- run
 def load_corpus():
     out = []
@@ -393,8 +523,13 @@ def run_case_oracle(ctx, case, rng):
         oracle_roundtrip(ctx, tuple(case['loc']))
     elif case['op'] == 'published':
         oracle_published(ctx, tuple(case['loc']), rng, all_masks=True)
+    elif case['op'] == 'filter' and 'expected' in case:
+        oracle_filter_expected(ctx, tuple(case['self']), case['services'], case['expected'])
     elif case['op'] == 'filter':
         oracle_filter(ctx, tuple(case['self']), case['services'])
+    elif case['op'] == 'search':
+        remote = [(None if ty is None else [tuple(x) for x in ty], sc) for ty, sc in case['remote']]
+        oracle_search(ctx, tuple(case['self']), remote, case['expected'], impl_search(tuple(case['self']), remote))
 
 
 def run(ctx):
@@ -438,6 +573,10 @@ def run(ctx):
             t, svcs = tuple(case['self']), case['services']
             if encodable(*t, *[s for sv in svcs if sv for s in sv]):
                 add(_filter_line(t, svcs), impl_filter(t, svcs), case, True)
+        elif case['op'] == 'search':
+            t = tuple(case['self'])
+            remote = [(None if ty is None else [tuple(x) for x in ty], sc) for ty, sc in case['remote']]
+            add(_search_line(t, remote), impl_search(t, remote), case, True)
 
     # 1. locations: every presence pattern x special strings
     for mask in range(64):
@@ -508,6 +647,90 @@ def run(ctx):
         oracle_filter(ctx, rand_loc(rng), [[s]])
         ctx.case({'op': 'filter-surrogate', 'scope': s.encode('utf-8', 'surrogatepass').hex()})
         ctx.count('op:filter-surrogate(oracle only)')
+
+    # 2b. services with several location scopes (primary identifier ahead of the fallback, malformed one first, ...):
+    #     inside iff ANY scope is inside; the expected selection is known by construction
+    for _ in range(ctx.n(600, 6000)):
+        t = rand_loc(rng)
+        if t[0] == '':
+            continue
+        svcs, expected = [], []
+        for i in range(rng.randrange(1, 5)):
+            scopes, inside = multi_scope_service(rng, t)
+            svcs.append(scopes)
+            if inside:
+                expected.append(i)
+        if rng.random() < 0.5 and t[0] == DEFAULT_ROOT:
+            # the real thing: a provider inside t whose location state has a primary identifier before/after the fallback
+            inner = [v if v is not None else (rand_string(rng) if rng.random() < 0.5 else None) for v in t]
+            if any(inner[1:]):
+                first = rng.random() < 0.7
+                svcs.append(published_scope_list(inner, [(rng.choice(['urn:oid:1.3.6.1.4.1.99', 'http://hospital/ids', 'x']),
+                                                          rng.choice(['ward-7/bed-7', '', 'a b']))], extra_first=first))
+                expected.append(len(svcs) - 1)
+                ctx.count('multi-scope:published-with-primary-identifier-' + ('first' if first else 'last'))
+        oracle_filter_expected(ctx, t, svcs, expected)
+        ctx.count(f'multi-scope:services-inside-{min(len(expected), 3)}')
+        if encodable(*[x for sv in svcs for x in sv]):
+            add(_filter_line(t, svcs), impl_filter(t, svcs), {'op': 'filter', 'self': list(t), 'services': svcs, 'expected': expected}, True)
+
+    # 2c. the public entry point WSDiscovery.search_sdc_device_services_in_location on a table of discovered services whose
+    #     scopes come from the real mk_scopes: devices at a location inside / outside the searched one, services of another
+    #     type, services with foreign scopes
+    for _ in range(ctx.n(400, 5000)):
+        dev = rand_loc(rng, root=DEFAULT_ROOT)
+        if not any(dev[1:]):
+            continue
+        # the searched location: an enclosing one (drop elements), or one that differs in a specified element
+        mask = rng.randrange(64)
+        t = list(enclosing_of(dev, mask, DEFAULT_ROOT))
+        encloses = True
+        if rng.random() < 0.35:
+            j = 1 + rng.randrange(6)
+            t[j] = (dev[j] or '') + 'x'
+            encloses = False
+        t = tuple(t)
+        remote, expected = [], []
+        for i in range(rng.randrange(1, 6)):
+            k = rng.random()
+            if k < 0.45:      # an SDC device at `dev`
+                try:
+                    scopes = published_scope_list(dev, [('urn:oid:1.2.3', 'p/1')] if rng.random() < 0.3 else [], extra_first=rng.random() < 0.5)
+                except Exception:  # noqa: BLE001
+                    continue
+                remote.append((list(DEVICE_TYPES) + ([OTHER_TYPE] if rng.random() < 0.3 else []), scopes))
+                if encloses:
+                    expected.append(len(remote) - 1)
+            elif k < 0.6:     # same place, but not an SDC device (one of the device types missing)
+                try:
+                    remote.append((rng.choice([[DEVICE_TYPES[0]], [OTHER_TYPE], []]), published_scope_list(dev)))
+                except Exception:  # noqa: BLE001
+                    continue
+            elif k < 0.8:     # an SDC device somewhere else
+                other = list(dev)
+                spec = [j for j in range(1, 7) if t[j] is not None]
+                if not spec:
+                    continue
+                j = rng.choice(spec)
+                other[j] = t[j] + 'y'
+                try:
+                    remote.append((list(DEVICE_TYPES), published_scope_list(other)))
+                except Exception:  # noqa: BLE001
+                    continue
+            elif k < 0.9:     # foreign scopes only / no scopes
+                remote.append((list(DEVICE_TYPES), None if rng.random() < 0.3 else [rand_foreign_scope(rng) for _ in range(rng.randrange(3))] + [rng.choice(NON_LOC_SCOPES)]))
+                if remote[-1][1] is not None and any(x.lower().startswith('sdc.ctxt.loc:') or x[:1] in ' \t\n\x00\x1f' for x in remote[-1][1]):
+                    remote.pop()   # a random location scope could be inside by accident: keep the expectation exact
+            else:             # the scope SdcLocation itself makes (consumer side objects)
+                remote.append((list(DEVICE_TYPES), [mk_loc(dev).scope_string]))
+                if encloses:
+                    expected.append(len(remote) - 1)
+        if not remote or not encodable(*[x for _, sc in remote if sc for x in sc]):
+            continue
+        impl = impl_search(t, remote)
+        oracle_search(ctx, t, remote, expected, impl)
+        ctx.count('search:' + ('enclosing' if encloses else 'elsewhere') + f':found-{min(len(expected), 3)}')
+        add(_search_line(t, remote), impl, {'op': 'search', 'self': list(t), 'remote': remote, 'expected': expected}, True)
 
     # 3. library functions under the model: parse_qsl, UTF-8 repair, quote / quote_plus / unquote
     for _ in range(ctx.n(1500, 10000)):
